@@ -1359,7 +1359,11 @@ class Lowering:
                         return '%s(%s, %s)' % (mac, self.expr(a), self.expr(b))
                     lhs = self.expr(a)
                     if '++' in lhs or '--' in lhs or re.search(r'[A-Za-z_][A-Za-z0-9_]*\(', lhs):
-                        raise LoweringError('compound assignment with side effects under uf_fp')
+                        # the left operand has side effects: evaluate its address once into a hoisted temporary
+                        self.cur_fn['tmp'] = self.cur_fn.get('tmp', 0) + 1
+                        nm = 'vf_tmp%d' % self.cur_fn['tmp']
+                        self.cur_fn.setdefault('pending', []).append('double *%s;' % nm)
+                        return '(%s = %s, *%s = %s(*%s, %s))' % (nm, self.addr(a), nm, mac, nm, self.expr(b))
                     return '(%s = %s(%s, %s))' % (lhs, mac, lhs, self.expr(b))
             if op == '/' and self.fdiv_macro and k == 'BinaryOperator':
                 t = self.parse_type(n['type'])
